@@ -3,13 +3,15 @@
  * Each invocation creates RECFILE.<n> (first free n, O_EXCL), writes one line
  * with the original argv joined by \x1f and then everything it reads on
  * stdin, byte for byte.  The number of RECFILE.* files is the number of
- * mails sent. */
+ * mails sent.  $E3_MAILDELAY=<seconds> makes it dawdle first. */
 #include <stdio.h>
 #include <stdlib.h>
 #include <string.h>
 #include <unistd.h>
 #include <fcntl.h>
 #include <errno.h>
+#include <time.h>
+#include <signal.h>
 
 int
 main(int argc, char *argv[])
@@ -21,6 +23,18 @@ main(int argc, char *argv[])
 
 	if (argc < 2) {
 		return 64;
+	}
+	{
+		/* like a real mailer: start from a clean signal mask and default dispositions,
+		 * whatever the caller had blocked */
+		sigset_t none;
+		sigemptyset(&none);
+		sigprocmask(SIG_SETMASK, &none, NULL);
+	}
+	if (getenv("E3_MAILDELAY") != NULL) {
+		/* a busy mailer: still running when the job's time limit runs out */
+		struct timespec ts = {atoi(getenv("E3_MAILDELAY")), 0};
+		while (nanosleep(&ts, &ts) < 0 && errno == EINTR);
 	}
 	for (int i = 0; i < 1000; i++) {
 		snprintf(fn, sizeof(fn), "%s.%d", argv[1], i);
